@@ -329,13 +329,17 @@ impl Variant {
                 Self::VInteger(i_left) => match round_right {
                     Self::VInteger(i_right) => Ok(Self::VInteger(i_left % i_right)),
                     Self::VLong(l_right) => Ok((i_left as i64 % l_right).fit_to_type()),
+                    Self::VSingle(_) | Self::VDouble(_) => Err(VariantError::Overflow),
                     _ => Err(VariantError::TypeMismatch),
                 },
                 Self::VLong(l_left) => match round_right {
                     Self::VInteger(i_right) => Ok((l_left % i_right as i64).fit_to_type()),
                     Self::VLong(l_right) => Ok((l_left % l_right).fit_to_type()),
+                    // a rounded operand that is still floating is beyond the range of a long
+                    Self::VSingle(_) | Self::VDouble(_) => Err(VariantError::Overflow),
                     _ => Err(VariantError::TypeMismatch),
                 },
+                Self::VSingle(_) | Self::VDouble(_) => Err(VariantError::Overflow),
                 _ => Err(VariantError::TypeMismatch),
             }
         }
